@@ -11,7 +11,7 @@
 (state-V) the WHOLE persisted graph of the realm packages, dumped from the raw store after
     every committed transaction, is evaluated by TLC against the same RealmInv.tla
     (spec/RealmDump.tla): RefCountExact / OwnerIffSingle / NoDangling / HashMatches /
-    ReachableUnlessCyclic on every dumped state."""
+    ReachableUnlessCyclic / IdCounter (every persisted id <= the persisted Realm.Time of its realm) on every dumped state."""
 import json, os, random, subprocess, threading, glob
 import vlib
 
@@ -103,7 +103,7 @@ def replay(ctx, binary, behs, label, mode="replay"):
     crash = [r["case"] for r in res if r.get("kind") == "crashcase"]
     ctx.add("traces_validated_against_impl", int(s.get("replays", 0)))
     ctx.add("impl_transactions", int(s.get("steps", 0)))
-    for k in ("nodes_compared", "cross_realm_txs", "seen_escaped", "seen_shared", "aborted", "drift_outcome", "stale_child_hash", "instances"):
+    for k in ("handover_equal_size_measured", "alloc_after_handover", "nodes_compared", "cross_realm_txs", "seen_escaped", "seen_shared", "aborted", "drift_outcome", "stale_child_hash", "instances"):
         if s.get(k):
             ctx.add(k, int(s[k]))
     nl = int(s.get("dump_lines", 0))
@@ -227,14 +227,21 @@ def run(ctx):
         start("witness", lambda: witness(ctx))
     # directed: the commit edges on which the recursive save meets an object already being saved
     start("loop", lambda: edges(ctx, "Realm_loop.cfg"))
-    re_, rx, rs = par([lambda: edges(ctx, "Realm_qe.cfg"), lambda: edges(ctx, "Realm_xq.cfg"),
-                       lambda: simulate(ctx, 20 if quick else 350)])
-    ctx.cov["edges_emitted"] = len(re_.traces) + len(rx.traces)
+    # Realm_hand.cfg: directed 3-transaction behaviours - realm 1 allocates a node and hands it to realm 2
+    # (crossing call), realm 2 stores it: the id is minted from realm 1's counter by realm 2's finalisation;
+    # the next transaction replaces it by an equal-sized node of realm 1 (realm 1's bytes cancel out); the
+    # third transaction is free (realm 1 allocates again: its persisted counter must not be behind)
+    re_, rx, rh, rs = par([lambda: edges(ctx, "Realm_qe.cfg"), lambda: edges(ctx, "Realm_xq.cfg"),
+                           lambda: edges(ctx, "Realm_hand.cfg"), lambda: simulate(ctx, 20 if quick else 350)])
+    ctx.cov["edges_emitted"] = len(re_.traces) + len(rx.traces) + len(rh.traces)
     behs = []
-    for r, nq, nt in ((re_, 40, 1500), (rx, 20, 700)):
+    for r, nq, nt in ((re_, 36, 1500), (rx, 18, 700), (rh, 12, 300)):
         eb = vlib.dedup_prefix(r.traces)
         eb.sort(key=lambda b: json.dumps(b, sort_keys=True))
         n = nq if quick else nt
+        if r is rh:
+            # prefer the directed behaviours whose last transaction lets the first realm allocate again
+            eb = [b for b in eb if any(o["op"] == "new" for o in b[-1]["ops"])] or eb
         behs += rng.sample(eb, min(n, len(eb)))
     behs += rs.traces
     ctx.log("emission done: %d behaviours selected" % len(behs))
@@ -242,6 +249,10 @@ def run(ctx):
     s = out.get("summary", {})
     if not s.get("seen_escaped") or not s.get("seen_shared") or not s.get("nodes_compared") or not s.get("cross_realm_txs"):
         raise vlib.Inconclusive("VACUOUS", "replayed behaviours never produced a shared / escaped node or a cross-realm transaction: %s" % s)
+    need = (5, 2) if quick else (150, 60)
+    if int(s.get("handover_equal_size_measured", 0)) < need[0] or int(s.get("alloc_after_handover", 0)) < need[1]:
+        raise vlib.Inconclusive("VACUOUS", "hand-over with equal-sized replacement measured %s times, followed by an allocation of the first realm %s times"
+                                % (s.get("handover_equal_size_measured", 0), s.get("alloc_after_handover", 0)))
     for t in bg:
         t.join()
     for name, r in bgres.items():
